@@ -64,7 +64,12 @@ type Trace struct {
 	Tool *uisim.ToolScenario `json:"tool,omitempty"`
 }
 
-func (t *Trace) Len() int { return len(t.Ops) }
+func (t *Trace) Len() int {
+	if t.Tool != nil {
+		return t.Tool.K // a tool-tier trace is minimised by dropping emulations
+	}
+	return len(t.Ops)
+}
 func (t *Trace) clone() *Trace {
 	c := *t
 	c.Ops = append([]Op(nil), t.Ops...)
@@ -74,13 +79,16 @@ func (t *Trace) clone() *Trace {
 	return &c
 }
 func (t *Trace) Without(from, to int) core.Trace {
+	if t.Tool != nil {
+		return &Trace{Seed: t.Seed, Tool: t.Tool.Without(from, to)}
+	}
 	c := t.clone()
 	c.Ops = append(append([]Op(nil), t.Ops[:from]...), t.Ops[to:]...)
 	return c
 }
 func (t *Trace) Simplify(i int) []core.Trace {
 	var out []core.Trace
-	if i != -1 {
+	if i != -1 || t.Tool != nil {
 		return nil
 	}
 	// replace an instruction that is not the entry by a nop (addi x0,x0,0):
